@@ -853,7 +853,8 @@ func (e *eng) Op(f []string, line string, out *hx.Out) {
 		e.quiesce()
 		var parts []string
 		for o := range e.table.All(e.db.ReadTxn()) {
-			parts = append(parts, fmt.Sprintf("k%d:v%d:%s", o.K, o.Ver, kindStr(o.GetStatus())))
+			// a<n>: the field only the second (imaginary) reconciler writes
+			parts = append(parts, fmt.Sprintf("k%d:v%d:%s:a%d", o.K, o.Ver, kindStr(o.GetStatus()), o.Other))
 		}
 		out.P("M:C14,C15 rev=%d [%s]%s", e.tableRev(), strings.Join(parts, " "), e.takeBad())
 	case "wur":
